@@ -159,12 +159,43 @@ func crashHistory(rng *rand.Rand, out *Out) {
 		ops = append(ops, genPatch(rng, sortedKeys(r.states[prev]))...)
 	}
 	maxH := prev.Height + 1
+	// now and then the process that crashes has, just before, been handed a commit on a STALE parent (the pillar's own
+	// momentum that lost the race for a height): it must be refused without a trace, in memory too
+	var stale *tx
+	if steps >= 2 && rng.Intn(3) == 0 {
+		sp := r.chain[len(r.chain)-2]
+		sc := &commit{prev: sp, id: types.HashHeight{Hash: freshHash(rng), Height: sp.Height + 1}, data: genVal(rng)}
+		stale = &tx{c: sc, p: mkPatch(genPatch(rng, sortedKeys(r.states[sp])))}
+		out.Count("crash:stale-parent-commit-offered-first")
+	}
+	offerStale := func(m db.Manager) {
+		if stale != nil {
+			safe(func() error { return m.Add(stale) })
+		}
+	}
 	before := observe(nd.m, maxH)
 	nd.close()
+	// the disk image of a RUNNING node: the store is opened by the product's own constructor (whatever it reads, writes
+	// or repairs when it opens a store happens here) and copied while it is open; the crashing nodes below start from
+	// this image. The fault-injecting constructor of the hook builds the manager itself and would skip that.
+	{
+		var live db.Manager
+		if e := safe(func() error { live = db.NewLevelDBManager(dir); return nil }); e != nil || live == nil {
+			out.Oracle(false, "crash-image-reopens", M{"what": "cleanly stopped store does not open", "err": fmt.Sprint(e)})
+			return
+		}
+		running := copyDir(dir)
+		got := observe(live, maxH)
+		out.Oracle(got == before, "clean-restart-keeps-state", M{"got": got, "want": before})
+		live.Stop()
+		defer os.RemoveAll(running)
+		dir = running
+	}
 
 	// crash-free run on a copy: number of writes and the state after
 	d0 := copyDir(dir)
 	n0 := openCrashNode(d0)
+	offerStale(n0.m)
 	var opErr error
 	if isPop {
 		opErr = safe(func() error { return n0.m.Pop() })
@@ -189,6 +220,7 @@ func crashHistory(rng *rand.Rand, out *Out) {
 		k := kk / 2
 		d := copyDir(dir)
 		nk := openCrashNode(d)
+		offerStale(nk.m)
 		nk.used = 0
 		nk.budget = k
 		nk.fs.tear = kk%2 == 1
